@@ -204,6 +204,8 @@ static void run(Src &s) {
   size_t dk = s.weighted({40, 15, 15, 10, 10, 10});  // delimiter option: default, "=", " ", \t, spaces, long string
   to.fixed_di = (dk == 2 || dk == 3 || dk == 4) ? 2 : 0;
   if (dk == 5) to.multiline_values = false;  // escapes are blanks: a delimiter set with blank and non-blank characters has no multi-line values
+  size_t ck = s.weighted({55, 20, 25});  // --comment: default, ';', '#;'
+  to.comment_lines = ck == 0 ? "#" : ck == 1 ? ";" : "#;";
   Params pa = gen_params(s, to);
   pa.dirarg_mode[0] = pa.dirarg_mode[1] = 0;
   pa.dir_override = {"/usr/etc", "/etc"};
@@ -232,6 +234,7 @@ static void run(Src &s) {
         cur = sec;
       }
       m.append(sec, e.key, e.value);
+      if (s.chance(25)) text += std::string(1, to.comment_lines[s.below((uint32_t)to.comment_lines.size())]) + " remark\n";
       text += e.key + sep + e.value + "\n";  // (continuation lines carry their indentation in the value)
     }
     if (s.chance(25)) {
@@ -300,10 +303,14 @@ static void run(Src &s) {
     }
     default: break;
   }
-  if (s.chance(25)) {
+  if (ck == 1) {
     opts.push_back("--comment");
     opts.push_back(";");
     C = ";";
+  } else if (ck == 2) {
+    opts.push_back(s.chance(50) ? "--comment=#;" : "-c#;");
+    C = "#;";
+    g_case.tag("two_comment_characters");
   }
   bool has_groupless = false, has_sections = false;
   for (auto &c : cons)
